@@ -35,6 +35,15 @@ CHECKS = {
             'options against the directives the generator placed. Then the real operator runs.',
             'Trusts frame evaluation of names (eval in f_globals/f_locals of the generated frame). Sentinel probe skipped when a composite entry is Undefined.',
             'DESIGN.md 3/C03'),
+    'C04': ('exploration',
+            'static scan of every emitted module + tracer values that attribute truth/iteration/call requests to frames',
+            'Every module text the real converter hands to the loader is parsed and scanned for surviving native if/while/for/'
+            'break/continue/early return/and/or/not/conditional expression/chained comparison/call outside the documented contexts; '
+            'programs run on tracer values whose __bool__/__iter__ and a tracer callee record the requesting frame (generated module '
+            'vs malt operator) with the instruction position mapped back to the generated AST. Construct x context matrix enumerated; '
+            'random C01-class programs on tracer inputs.',
+            'Frames are attributed by file name; exempt contexts are those the documentation lists plus assert and `in` tests (not overloadable).',
+            'DESIGN.md 3/C04'),
     'C11': ('exploration',
             'differential execution with adversarial identifiers + recorder on the real Namer.new_symbol',
             'Programs whose identifiers are the converter vocabulary in every role (random stream + 10 role templates x 45 names) '
